@@ -4,11 +4,14 @@
    verification: when it returns (with any handler), every directory the walk reaches was listed and inspected without
    error, and for every file found there - and every entry of the merged dictionary - the per-object check itself returned
    an answer rather than an error (C06_walk_hides_no_error), so an object that cannot be opened makes the whole
-   verification end with that error (C06_unreadable_found_file_fails_the_walk).  PARTIAL: propagation through Manifest
-   loading and the update walk is the error monad of the model, exercised with the real os.* calls by fault injection. *)
+   verification end with that error (C06_unreadable_found_file_fails_the_walk).  For the update: when
+   update_entries_for_directory returns, every directory its walk reached was listed and inspected, the first listing or
+   inspection error ends the walk with that error (C06_update_lists_every_directory), and the operation has no way to write -
+   its result is a loader, the file system is not among its results (only save_manifests returns a new world).  PARTIAL:
+   propagation through Manifest loading is the error monad of the model, exercised with the real os.* calls by fault injection. *)
 From Coq Require Import List NArith ZArith.
-From Gemato Require Import Py.PyStr Py.PyPath Gen.Tables Model.Entry Model.Text Model.OpenPGP Model.Hash Model.FS Model.Verify Model.Loader.
-From Gemato Require Import Proofs.Faults Proofs.DirSpec Proofs.OnlyOffending Proofs.WalkComplete.
+From Gemato Require Import Py.PyStr Py.PyPath Gen.Tables Model.Entry Model.Text Model.OpenPGP Model.Hash Model.FS Model.Verify Model.Loader Model.Update.
+From Gemato Require Import Proofs.Faults Proofs.DirSpec Proofs.OnlyOffending Proofs.WalkComplete Proofs.NoLoopUpd Proofs.UpdListed.
 Import ListNotations.
 Open Scope N_scope.
 
@@ -92,6 +95,26 @@ Proof.
   rewrite X in N1. discriminate.
 Qed.
 Print Assumptions C06_unreadable_found_file_fails_the_walk.
+
+
+(* the update / create walk: when update_entries_for_directory returns, every directory it reached - from the start, through listed
+   sub-directories that are not hidden and have no entry in the de-duplicated dictionary it starts from - was listed and inspected
+   without error: an unreadable directory is never passed over as if it were empty or absent ... *)
+Theorem C06_update_lists_every_directory : forall (L : hashlib) decompress pgp w l path hashes lm l',
+  update_entries_for_directory L decompress pgp w l path hashes lm = Ok l' ->
+  exists l1 nm l2 ed,
+    load_unregistered_manifests L decompress pgp w l path false = Ok (l1, nm) /\
+    get_dedup_dict L decompress pgp w l1 path false = Ok (l2, ed) /\
+    forall dp rel anc, reachu w ed (walk_top path) path [] dp rel anc ->
+      exists ents st, p_scandir w dp = Ok ents /\ p_stat w dp = Ok st.
+Proof. exact update_lists_every_reached_directory. Qed.
+Print Assumptions C06_update_lists_every_directory.
+
+(* ... because the first error of a listing ends the walk with that error *)
+Theorem C06_update_listing_error : forall (L : hashlib) decompress pgp f w X rel nm hashes lm s e,
+  p_scandir w X = Err e -> walk_update L decompress pgp (S f) w X rel nm hashes lm s = Err e.
+Proof. exact update_walk_listing_error. Qed.
+Print Assumptions C06_update_listing_error.
 
 (* non-vacuity: Manifest 'DATA b 1', the file b; open() of b fails with EACCES: the premises hold, and the verification of the
    whole tree ends with exactly that error *)
